@@ -82,7 +82,17 @@ class Opts:
             setattr(self, k, v)
 
 
+def _has_pref(e):
+    if not isinstance(e, list) or not e:
+        return False
+    if e[0] == "pref":
+        return True
+    return any(_has_pref(x) for x in e[1:] if isinstance(x, list)) or (e[0] in ("cat", "anon") and any(_has_pref(x if e[0] == "cat" else x[1]) for x in e[1]))
+
+
 class ModGen:
+    decoy = False
+
     def __init__(self, d, spec, midx, opts, feats):
         self.d, self.spec, self.midx, self.o, self.feats = d, spec, midx, opts, feats
         self.sigs = []  # [name, width, dir]
@@ -246,8 +256,8 @@ class ModGen:
         for (iname, pname), info in self.portinfo.items():
             if (iname, pname) == cur or info["kind"] != "inst" or info["bundle"] is not None:
                 continue
-            if info["plan"] == "nc":
-                continue
+            if info["plan"] == "nc" and not (self.decoy and not inner):
+                continue  # (a decoy connection - replaced before the history ends - may also name a port that ends up no-connected)
             if inner:
                 if not info["done"] or info["has_ref"] or info["plan"] != "explicit":
                     continue
@@ -464,6 +474,7 @@ class ModGen:
         d = self.d
         saved = self.referenced
         self.referenced = set()  # references made by decoys are not live in the final mapping
+        self.decoy = True
         per_port = []
         for inst in self.insts:
             final = {}
@@ -481,7 +492,19 @@ class ModGen:
                         connected = None
                         continue
                     fake = dict(info, plan=("nc" if d.bool(15) else "explicit"))
-                    e = self.conn_for(inst, p, key, fake, allow_ref=(inst["kind"] == "inst"))
+                    # (an instance that is multiplied into an array later is a plain instance while its decoys are made)
+                    e = None
+                    if inst.get("via") == "mult_late" and p[0] == "sig" and d.bool(35):
+                        # the template instance of a later `n * inst` holds a reference - preferably to a port that ends up
+                        # no-connected - when it is multiplied
+                        tg = self.ref_targets(p[2], key, inner=False)
+                        tg = [t for t in tg if self.portinfo[(t[0], t[1])]["plan"] == "nc"] or tg
+                        if tg:
+                            t = d.choice(tg)
+                            e = ["pref", t[0], t[1]]
+                            self.feats.add("template_holds_portref")
+                    if e is None:
+                        e = self.conn_for(inst, p, key, fake, allow_ref=(inst["kind"] == "inst" or inst.get("via") == "mult_late"))
                     op = "replace" if connected is not None and d.bool(30) else d.choice(["call", "setattr", "connect"])
                     if connected is not None:
                         self.feats.add("T:%s->%s" % (connected, _ekind(e)))
@@ -511,7 +534,19 @@ class ModGen:
             pos[i] += 1
             if pos[i] == len(per_port[i]):
                 live.remove(i)
+        # `n * inst` happens somewhere in the history: after the last decoy that only a plain instance can hold
+        for inst in self.insts:
+            if inst.get("kind") == "array" and inst.get("via") == "mult_late":
+                last = -1
+                for i, (iname, pn, e, op) in enumerate(hist):
+                    if iname == inst["name"] and e is not None and _has_pref(e) and not (pn in dict(inst["conns"]) and dict(inst["conns"])[pn] is e):
+                        last = i
+                at = last + 1 if (last >= 0 and d.bool(60)) else d.int(last + 1, len(hist))
+                hist.insert(at, [inst["name"], None, None, "mult"])
+                if at < len(hist) - 1:
+                    self.feats.add("array_multiplied_mid_history")
         self.referenced = saved
+        self.decoy = False
         return hist
 
     def conn_for(self, inst, p, key, info, allow_ref=True):
